@@ -12,6 +12,11 @@ use std::collections::HashMap;
 use std::fmt;
 use std::fmt::{Debug, Display, Formatter};
 use std::ops::Deref;
+#[cfg(feature = "Verif_Hooks")]
+use crate::verif_sync::{LockResult, Mutex, MutexGuard};
+#[cfg(feature = "Verif_Hooks")]
+use std::sync::Arc;
+#[cfg(not(feature = "Verif_Hooks"))]
 use std::sync::{Arc, LockResult, Mutex, MutexGuard};
 
 use crate::actions::ActionMap;
@@ -1112,6 +1117,7 @@ impl DataArc {
         }
     }
 
+    #[cfg_attr(feature = "Verif_Hooks", track_caller)]
     pub fn lock(&self) -> LockResult<MutexGuard<'_, Data>> {
         self.arc.lock()
     }
